@@ -84,6 +84,12 @@ FIXED = [
     ("C08", "010a6d1", "`({})+1`, `var t=({}).toString; t()` raised a Python TypeError out of eval; this-taking natives used as callbacks, getters, setters or comparators received the wrong this"),
     ("C04", "010a6d1", "`({})+1` raised TypeError: JSBoundMethod.__call__() missing 1 required positional argument out of eval"),
     ("C18", "5130b9b", "`String(1e-7)` was '1e-07' and `Number('1_0')` was 10: number printing used repr() and parsing used int()/float() without the StringNumericLiteral grammar"),
+    ("C05", "a2cdb8d", "closures created in for-in/for-of loops or catch clauses saw undefined or stale values; `for (k in o)` in a nested function assigned a global; typeof read a stale slot"),
+    ("C05", "352e87d", "labelled break/continue across for-in, for-of or switch leaked an operand per execution; `continue` inside switch; `continue label` jumped to offset 0"),
+    ("C02", "352e87d", "the same leaks made bounded loops grow the operand stack until MemoryLimitError; break/continue out of try left handler records behind"),
+    ("C07", "352e87d", "break/continue out of a try block left its handler registered (a later throw landed in the stale catch); break ran the finally of a try that encloses the loop; a throw from a catch clause skipped finally"),
+    ("C04", "352e87d", "`function f(){ try { return 1 } finally { return 2 } }` made the compiler recurse until RecursionError escaped eval"),
+    ("C02", "850fde3", "`for(var i=0;i<3000;i++){ try { throw 1 } finally { continue } }` grew the operand stack by one slot per iteration until MemoryLimitError: the exception waiting to be rethrown was abandoned on the stack (found by obligation O13)"),
     ("C04", "5541b57", "`a.reduce(function(acc,x){a.pop();return acc+x})` (and reduceRight) let a raw IndexError escape: the loop bound was computed before the callbacks ran"),
 ]
 
